@@ -204,6 +204,9 @@ def c18_npz(ctx, dtype, dim):
                 img.save(p)
                 back = darsia.imread(p)
                 back2 = darsia.imread_from_npz(p)
+                shared = Path(tmp) / "scratch.npz"          # one path overwritten by every image of this loop (history: earlier content of the path)
+                img.save(shared)
+                back3 = darsia.imread(shared)
             ctx.tick()
             tag = f"{dtype}/{dim}-D/{payload}/{times}"
             ctx.ensure(f"{tag}: pixel data and dtype identical", back.img.dtype == arr.dtype and back.img.shape == arr.shape and bool(np.array_equal(back.img, arr)) and bool(np.array_equal(back2.img, arr)))
@@ -213,6 +216,8 @@ def c18_npz(ctx, dtype, dim):
                 a, b = m1[k], m2.get(k)
                 ok = ok and (bool(np.all(np.asarray(a) == np.asarray(b))) if k in ("dimensions", "origin") else a == b)
             ctx.ensure(f"{tag}: metadata identical", ok)
+            ctx.ensure(f"{tag}: a path that held another image before reads back as the image saved last", back3.img.dtype == arr.dtype and back3.img.shape == arr.shape
+                       and bool(np.array_equal(back3.img, arr)) and back3.name == img.name and back3.metadata()["date"] == m1["date"] and back3.metadata()["time"] == m1["time"])
             ctx.ensure(f"{tag}: saved image untouched", bool(np.array_equal(img.img, arr)))
 
 
@@ -274,8 +279,10 @@ def _make(cls, rng, variant=None):
 def c18_corrections(ctx, cls, variant):
     rng = np.random.default_rng(ctx.rng.randrange(1 << 30))
     with tempfile.TemporaryDirectory() as tmp, contextlib.redirect_stdout(io.StringIO()):
-        corr = _make(cls, rng, variant)
         p = Path(tmp) / "corr.npz"
+        _make(cls, rng, (variant + 1)).save(p)          # the path held another correction of the class before (history)
+        darsia.read_correction(p)
+        corr = _make(cls, rng, variant)
         corr.save(p)
         back = darsia.read_correction(p)
         ctx.ensure("generic reader returns the same correction class", type(back) is type(corr))
